@@ -69,7 +69,7 @@ func openFindings() map[string]bool {
 
 // render asks vuego for the output of tpl over data through one of two entry points; the file
 // entry point serves the page and the component from an in-memory file system.
-func render(tpl string, data map[string]any, entry string) (string, error) {
+func render(tpl string, data any, entry string) (string, error) {
 	var b bytes.Buffer
 	var err error
 	switch entry {
@@ -92,6 +92,11 @@ func render(tpl string, data map[string]any, entry string) (string, error) {
 // check renders the case on a fresh engine and compares the marker outline with the model's.
 func check(c Case) error {
 	want, st := expect(&c)
+	if len(st.onceRepeat) > 0 {
+		// out of this check's domain: a v-once chain member reached more than once in one render
+		// (what the later arrivals render is C16's subject); the generators do not produce it
+		return nil
+	}
 	src := c.source()
 	entry := c.Entry
 	if hasInclude(c.Nodes) {
@@ -193,7 +198,7 @@ func replay(kind string, raw json.RawMessage) error {
 	switch kind {
 	case "pre":
 		return run.Decode(raw, checkPre)
-	case "table", "value":
+	case "table", "value", "cache":
 		return run.Decode(raw, checkTruth)
 	default: // "shape", "slot", "scope", "comp", "nest"
 		return run.Decode(raw, check)
@@ -250,6 +255,21 @@ func TestProp(t *testing.T) {
 	}
 	if ok {
 		rec.Exhaustive(fmt.Sprintf("truthiness table: %d values (every scalar kind and width, strings, nil, missing, pointers, slices, maps, structs, values of named bool / string / int / float32 types and time.Duration and pointers to them) x %d positions (%d on the plain name, up to 8 for each of %d operand forms: paths, promoted fields of embedded structs, a loop variable shadowing a root variable of the opposite truthiness, variables named like template functions, booleans written as === / !== / == / != comparisons)", len(table), len(positions), basePositionCount, len(allForms())))
+	}
+
+	// ---- the table again around a page that resolves 300 fresh paths (process-wide path / program caches)
+	if run.First() {
+		cok := true
+		for _, v := range []vals.V{vals.Bool(true), vals.Bool(false), vals.Nil(), vals.Int(0), vals.Str("x"), vals.Str(""), vals.Missing()} {
+			c := TruthCase{Val: v, Prelude: 300}
+			nt, cls := classifyTruth(c)
+			if !run.Each(rec, "cache", c, nt, append(cls, "B:positions-again-after-300-fresh-paths"), checkTruth) {
+				cok = false
+			}
+		}
+		if cok {
+			rec.Exhaustive("truthiness positions rendered, then a page resolving 300 paths new to the process, then the positions again: 7 values x all positions")
+		}
 	}
 
 	// ---- Family A: chain shapes x truth assignments x separators x siblings x placements x member decorations
